@@ -1,6 +1,8 @@
 package main
 
 import (
+	"sort"
+	"go/constant"
 	"os"
 	"fmt"
 	"go/token"
@@ -102,6 +104,17 @@ func (e *Engine) evalLoopFn(fr *Frame, st *State, f *ssa.Function, li *loopInfo)
 			}
 		}
 		a, ok := e.localByName(fr, st, p.Name(), blockPos(li.head))
+		if p.Name() == "rangeindex" {
+			// the hidden index of THIS loop: the cell its head block loads and increments
+			for _, in := range li.head.Instrs {
+				if ld, isLd := in.(*ssa.UnOp); isLd && ld.Op == token.MUL {
+					if al, isAl := ld.X.(*ssa.Alloc); isAl && al.Comment == "rangeindex" {
+						a, ok = al, true
+						break
+					}
+				}
+			}
+		}
 		if !ok {
 			panic(contractError{fmt.Sprintf("%s: parameter %q does not name a live variable of %s", f.Name(), p.Name(), fnName(fr.fn))})
 		}
@@ -235,19 +248,59 @@ func (e *Engine) enterLoop(fr *Frame, li *loopInfo, cur *State) *State {
 	e.loopSeq++
 	loopID := e.loopSeq
 	mods := e.loopModifiedMems(fr, li)
-	havocAll := false
-	for _, name := range mods {
-		if name == "*" {
-			havocAll = true
+	havocAll, havocHeap := false, false
+	var pats []string
+	{
+		var plain []string
+		for _, name := range mods {
+			switch {
+			case name == "*":
+				havocAll = true
+			case name == "*heap":
+				havocHeap = true
+			case strings.HasPrefix(name, "~"):
+				pats = append(pats, name[1:])
+			default:
+				plain = append(plain, name)
+			}
 		}
+		mods = plain
 	}
-	if havocAll {
-		mods = nil
+	if havocAll || havocHeap || len(pats) > 0 {
+		// contracts applied in the body that may write "everything", "the heap" or the memories
+		// matching a pattern: every such memory known so far (touched or merely declared)
+		known := map[string]bool{}
 		for name := range st.mems {
-			if !strings.HasPrefix(name, "global:") {
+			known[name] = true
+		}
+		for name := range memShapes {
+			known[name] = true
+		}
+		have := map[string]bool{}
+		for _, m := range mods {
+			have[m] = true
+		}
+		for name := range known {
+			if have[name] {
+				continue
+			}
+			hit := false
+			switch {
+			case havocAll:
+				hit = !strings.HasPrefix(name, "global:")
+			case havocHeap && !strings.HasPrefix(name, "global:") && name != byteMemName:
+				hit = true
+			}
+			for _, p := range pats {
+				if strings.Contains(name, p) {
+					hit = true
+				}
+			}
+			if hit {
 				mods = append(mods, name)
 			}
 		}
+		sort.Strings(mods)
 	}
 	entryMems := map[string]*Mem{}
 	for k, v := range st.mems {
@@ -344,7 +397,14 @@ func (e *Engine) enterLoop(fr *Frame, li *loopInfo, cur *State) *State {
 			vprefix := fmt.Sprintf("loop%d.", loopID)
 			for _, name := range mods {
 				m, ok := entryMems[name]
-				if !ok || (len(m.ksort) != 2 && len(m.ksort) != 1) || strings.HasPrefix(name, "map:") || declared[name] {
+				isMap := strings.HasPrefix(name, "map:") // keyed (map ref, key leaves...): the ref plays the region's part
+				if !ok {
+					// not touched before the loop: its entry value is the initial memory
+					if ks, so := e.memShape(name); so >= 0 {
+						m, ok = NewBaseMem(name, ks, so, "M0."+name), true
+					}
+				}
+				if !ok || (len(m.ksort) != 2 && len(m.ksort) != 1 && !isMap) || declared[name] {
 					continue
 				}
 				var regions []*Term
@@ -725,11 +785,49 @@ func (e *Engine) callMods(c *ssa.CallCommon, set map[string]bool, seen map[*ssa.
 			for _, in := range b.Instrs {
 				if cc, ok := in.(*ssa.Call); ok {
 					if f := cc.Call.StaticCallee(); f != nil {
-						switch f.Name() {
+						switch intrinsicName(f) {
 						case "vModifiesBytes":
 							e.elemMods(f.Params[0].Type().Underlying().(*types.Slice).Elem(), set)
+						case "vModifiesElems":
+							if sl, ok := cc.Call.Args[0].Type().Underlying().(*types.Slice); ok {
+								e.elemMods(sl.Elem(), set)
+							}
 						case "vModifiesAll":
 							set["*"] = true
+						case "vModifiesHeap":
+							set["*heap"] = true
+						case "vModifiesMap":
+							e.mapMods(cc.Call.Args[0].Type(), set)
+						case "vModifiesObj", "vModifiesField":
+							// every field of the pointed-to object's type (an over-approximation for
+							// vModifiesField and interior pointers)
+							if mi, ok := cc.Call.Args[0].(*ssa.MakeInterface); ok {
+								if pt, ok := mi.X.Type().Underlying().(*types.Pointer); ok {
+									root := pt.Elem()
+									if fa, ok := mi.X.(*ssa.FieldAddr); ok {
+										// &x.f: the memory is named after the enclosing object
+										if a := rootObjType(fa); a != nil {
+											root = a
+										}
+									}
+									e.objMods(root, set)
+								} else {
+									set["*heap"] = true
+								}
+							} else {
+								set["*heap"] = true
+							}
+						case "vModifiesMems":
+							// literal patterns: every string constant stored in the harness
+							for _, b2 := range hn.Blocks {
+								for _, in2 := range b2.Instrs {
+									if st2, ok := in2.(*ssa.Store); ok {
+										if c2, ok := st2.Val.(*ssa.Const); ok && c2.Value != nil && c2.Value.Kind() == constant.String {
+											set["~"+constant.StringVal(c2.Value)] = true
+										}
+									}
+								}
+							}
 						}
 					}
 				}
@@ -753,6 +851,22 @@ func (e *Engine) callMods(c *ssa.CallCommon, set map[string]bool, seen map[*ssa.
 	for _, b := range callee.Blocks {
 		for _, in := range b.Instrs {
 			e.instrMods(in, set, seen, depth+1)
+		}
+	}
+}
+
+// rootObjType: the type of the outermost object a chain of field addresses starts from.
+func rootObjType(fa *ssa.FieldAddr) types.Type {
+	var v ssa.Value = fa
+	for {
+		switch x := v.(type) {
+		case *ssa.FieldAddr:
+			v = x.X
+		default:
+			if pt, ok := v.Type().Underlying().(*types.Pointer); ok {
+				return pt.Elem()
+			}
+			return nil
 		}
 	}
 }
